@@ -1,4 +1,5 @@
 """Aggregation of results: known-finding matching, replay files, evidence, exit code."""
+import fnmatch
 import json
 import os
 import sys
@@ -78,7 +79,9 @@ def finish(args, P, results, bounded, known, ax_n, t0, seed):
             checker_errors.append((b.get("name"), b.get("reason"), b.get("trace")))
         for v in b.get("violations", []):
             hit = next((f for f in known if f.get("status") == "known" and f.get("property") == prop
-                        and f.get("bounded") == b.get("name") and f.get("case_class") == v.get("case_class")), None)
+                        and f.get("bounded") == b.get("name")
+                        and (f.get("case_class") == v.get("case_class")
+                             or (f.get("case_class_glob") and fnmatch.fnmatchcase(v.get("case_class") or "", f["case_class_glob"])))), None)
             if hit is not None:
                 known_hits.append((hit, {"name": f"bounded:{b.get('name')}:{v.get('case_class')}"}, None))
             else:
